@@ -35,6 +35,7 @@ def scenarios(tier, seed):
         add("mll", n=2, lik="fixed_learn", mean="zero", priors=False, batch=0)
         add("mll", n=3, lik="fixed", mean="linear", priors=False, batch=0)
         add("mll", n=1, lik="gaussian", mean="constant", priors=True, batch=0)
+        add("mll", n=2, lik="gaussian", mean="constant", priors="shared", batch=0)
         add("loo", n=3, lik="gaussian", priors=True)
         add("loo", n=2, lik="fixed_learn", priors=False)
         add("sum_mll", n1=2, n2=3)
@@ -50,15 +51,20 @@ def scenarios(tier, seed):
                 add("loo", n=n, lik=lik, priors=(n == 3))
         add("sum_mll", n1=2, n2=3)
         add("sum_mll", n1=3, n2=3)
+        add("mll", n=3, lik="gaussian", mean="constant", priors="shared", batch=0)
+        add("loo", n=2, lik="gaussian", priors="shared")
     return out
 
 
 def _build(S, n, lik, mean, priors, bs, train=True):
     x = labels(0, n, bs)
     y = S.randn(*bs, n)
+    shared = gpytorch.priors.NormalPrior(0.5, 2.0) if priors == "shared" else None
     if lik == "gaussian":
         kw = {}
-        if priors:
+        if priors == "shared":
+            kw["noise_prior"] = shared  # ONE prior object registered on two parameters: both terms must be counted
+        elif priors:
             kw["noise_prior"] = gpytorch.priors.GammaPrior(2.0, 3.0)
         likelihood = gpytorch.likelihoods.GaussianLikelihood(batch_shape=torch.Size(bs), **kw)
     else:
@@ -69,7 +75,7 @@ def _build(S, n, lik, mean, priors, bs, train=True):
     table = torch.zeros(*bs, n, n)
     mm = make_mean(mean, bs)
     if priors and mean == "constant":
-        mm = gpytorch.means.ConstantMean(batch_shape=torch.Size(bs), constant_prior=gpytorch.priors.NormalPrior(0.5, 2.0))
+        mm = gpytorch.means.ConstantMean(batch_shape=torch.Size(bs), constant_prior=shared if shared is not None else gpytorch.priors.NormalPrior(0.5, 2.0))
     model = StubGP(x, y, likelihood, TableKernel(table), mm)
     model.train()
     likelihood.train()
@@ -99,10 +105,18 @@ def _fill_table(S, table, Gs, Gc, likelihood, x, n, bs):
 
 
 def _prior_terms(model, likelihood, bs):
-    """reference log prior densities, evaluated at the constrained values (read from the model under the mode)"""
+    """reference log prior densities at the constrained values. The list of (value, prior) pairs is the harness's own
+    knowledge of what was registered (NOT the library's named_priors enumeration, which is part of what is checked)"""
+    expected = []
+    nc = getattr(likelihood, "noise_covar", None)
+    if nc is not None and getattr(nc, "noise_prior", None) is not None:
+        expected.append(("noise_prior", likelihood.noise_covar.noise, nc.noise_prior))
+    mm = model.mean_module
+    if getattr(mm, "mean_prior", None) is not None:
+        expected.append(("mean_prior", mm.constant, mm.mean_prior))
     terms = []
-    for name, module, prior, closure, _ in model.named_priors():
-        v = as_sym_arr(SH.get(closure(module)))
+    for name, value, prior in expected:
+        v = as_sym_arr(SH.get(value))
         if isinstance(prior, gpytorch.priors.NormalPrior):
             mu, sd = float(prior.loc), float(prior.scale)
             lp = np.vectorize(lambda s: -((s - mu) * (s - mu)) * Sym.const(0.5 / sd ** 2) - Sym.const(math.log(sd)) - Sym.const(0.5 * LOG2PI), otypes=[object])(v)
